@@ -180,19 +180,21 @@ Inductive bop :=
 | BSources
 | BGet (ordered : bool) (p : bparams).   (* ordered = params is not nil: ORDER BY LastUpdated DESC *)
 
-Definition crow := (segid * N)%type.                     (* id, pay *)
+Definition crow := (segid * N * N)%type.                 (* id, pay, InIfID *)
 Definition brow := (segid * N * N * N * N)%type.         (* id, pay, InIfID, usage, last-updated tick *)
 Inductive bres :=
 | BRStats (ins upd : N) | BRUnit | BRCount (n : N)
+| BRDeleted (n : N)      (* DeleteBeacon: rows counted before minus rows counted after *)
 | BRCands (l : list crow) | BRSources (l : list ia) | BRGet (l : list brow).
 
-Definition crow_of (e : bentry) : crow := (be_id e, be_pay e).
+Definition crow_of (e : bentry) : crow := (be_id e, be_pay e, be_inif e).
 Definition brow_of (e : bentry) : brow := (be_id e, be_pay e, be_inif e, be_usage e, be_lu e).
 
 Definition bstep (tick : N) (db : beacon_db) (o : bop) : beacon_db * bres :=
   match o with
   | BInsert b u => let (db', st) := insert_beacon tick b u db in (db', BRStats (fst st) (snd st))
-  | BDelete p => (delete_beacon p db, BRUnit)
+  | BDelete p =>
+      (delete_beacon p db, BRDeleted (N.of_nat (length (filter (fun e => prefix_b p (be_id e)) db))))
   | BDeleteExpired now => let (db', n) := delete_expired_beacons now db in (db', BRCount n)
   | BCandidates n u src => (db, BRCands (map crow_of (candidate_beacons n u src db)))
   | BSources => (db, BRSources (beacon_sources db))
@@ -322,6 +324,7 @@ Inductive pop :=
 
 Inductive pres :=
 | PRStats (ins upd : N) | PRUnit | PRCount (n : N) | PRGet (l : list prow)
+| PRDeleted (n : N)      (* DeleteSegment: segments counted before minus segments counted after *)
 | PRBool (b : bool) | PRNQ (o : option N).
 
 Record pstate := { segs : seg_db; nqs : nq_db }.
@@ -331,7 +334,9 @@ Definition pstep (tick : N) (st : pstate) (o : pop) : pstate * pres :=
   | PInsert s ty gs =>
       let (db', r) := insert_seg tick s ty gs (segs st) in
       ({| segs := db'; nqs := nqs st |}, PRStats (fst r) (snd r))
-  | PDelete p => ({| segs := delete_segment p (segs st); nqs := nqs st |}, PRUnit)
+  | PDelete p =>
+      ({| segs := delete_segment p (segs st); nqs := nqs st |},
+       PRDeleted (N.of_nat (length (filter (fun e => prefix_b p (pe_id e)) (segs st)))))
   | PDeleteExpired now =>
       let (db', n) := delete_expired_segs now (segs st) in
       ({| segs := db'; nqs := nqs st |}, PRCount n)
@@ -355,7 +360,8 @@ Definition presults (ops : list pop) : list pres := rev (snd (prun ops)).
     (used as the oracle on the implementation's observations). *)
 
 Definition ia_list_eqb := list_eqb ia_eqb.
-Definition crow_eqb (a b : crow) : bool := id_eqb (fst a) (fst b) && (snd a =? snd b).
+Definition crow_eqb (a b : crow) : bool :=
+  match a, b with (i1, p1, f1), (i2, p2, f2) => id_eqb i1 i2 && (p1 =? p2) && (f1 =? f2) end.
 Definition brow_eqb (a b : brow) : bool :=
   match a, b with
   | (i1, p1, f1, u1, l1), (i2, p2, f2, u2, l2) =>
@@ -376,15 +382,16 @@ Fixpoint nodup_by {A} (eqb : A -> A -> bool) (l : list A) : bool :=
 Definition same_set {A} (eqb : A -> A -> bool) (a b : list A) : bool :=
   nodup_by eqb a && incl_by eqb a b && incl_by eqb b a.
 
-(** candidates: every row is a stored beacon (by id) with that payload, allowed for
+(** candidates: every row is a stored beacon (by id) with that payload and ingress
+    interface, allowed for
     the usage and source; no beacon twice; lengths non-decreasing; as many as
     possible up to n; nothing shorter was left out *)
 Fixpoint resolve (db : beacon_db) (rows : list crow) : option (list bentry) :=
   match rows with
   | [] => Some []
-  | (id, pay) :: t =>
+  | (id, pay, inif) :: t =>
       match kfind be_id id db, resolve db t with
-      | Some e, Some r => if be_pay e =? pay then Some (e :: r) else None
+      | Some e, Some r => if (be_pay e =? pay) && (be_inif e =? inif) then Some (e :: r) else None
       | _, _ => None
       end
   end.
@@ -419,7 +426,8 @@ Definition bres_ok (tick : N) (db : beacon_db) (o : bop) (r : bres) : bool :=
       | None => (i =? 1) && (k =? 0)
       | Some e => (i =? 0) && (k =? (if be_ver e <? b_ver b then 1 else 0))
       end
-  | BDelete _, BRUnit => true
+  | BDelete p, BRDeleted n =>
+      n =? N.of_nat (length (filter (fun e => prefix_b p (be_id e)) db))
   | BDeleteExpired now, BRCount n =>
       n =? N.of_nat (length (filter (fun e => be_exp e <? now) db))
   | BCandidates n u src, BRCands rows => cands_ok db n u src rows
@@ -436,7 +444,8 @@ Definition pres_ok (tick : N) (st : pstate) (o : pop) (r : pres) : bool :=
       | None => (i =? 1) && (k =? 0)
       | Some e => (i =? 0) && (k =? (if pe_ver e <? s_ver s then 1 else 0))
       end
-  | PDelete _, PRUnit => true
+  | PDelete p, PRDeleted n =>
+      n =? N.of_nat (length (filter (fun e => prefix_b p (pe_id e)) (segs st)))
   | PDeleteExpired now, PRCount n =>
       n =? N.of_nat (length (filter (fun e => pe_exp e <? now) (segs st)))
   | PGet p, PRGet rows => same_set prow_eqb rows (flat_map (rows_of p) (segs st))
@@ -465,11 +474,12 @@ Fixpoint phist_ok (tick : N) (st : pstate) (ops : list pop) (rs : list pres) : b
     sets are compared as sets and that candidates of equal length may come in any
     order (same lengths in the same positions, same beacons below the last length) *)
 Definition hops_of (db : beacon_db) (rows : list crow) : list N :=
-  map (fun r => match kfind be_id (fst r) db with Some e => be_hops e | None => 0 end) rows.
+  map (fun r => match kfind be_id (fst (fst r)) db with Some e => be_hops e | None => 0 end) rows.
 Definition bres_agree (db : beacon_db) (o : bop) (m r : bres) : bool :=
   match m, r with
   | BRStats a b, BRStats c d => (a =? c) && (b =? d)
   | BRUnit, BRUnit => true
+  | BRDeleted a, BRDeleted b => a =? b
   | BRCount a, BRCount b => a =? b
   | BRCands a, BRCands b =>
       list_eqb N.eqb (hops_of db a) (hops_of db b)
@@ -483,6 +493,7 @@ Definition pres_agree (m r : pres) : bool :=
   match m, r with
   | PRStats a b, PRStats c d => (a =? c) && (b =? d)
   | PRUnit, PRUnit => true
+  | PRDeleted a, PRDeleted b => a =? b
   | PRCount a, PRCount b => a =? b
   | PRGet a, PRGet b => same_set prow_eqb b a
   | PRBool a, PRBool b => Bool.eqb a b
